@@ -27,6 +27,13 @@ def check_idle(res, clause, dom, owner, entry, fields, tl=True, what='exit', pro
             ok, desc = rm.idle_value(dom, s, f)
             if not ok:
                 bad.append('%s %s' % (f, desc))
+        # a lock taken explicitly (acquire()) inside the scope is part of the recorder's state: held at an exit = not idle
+        acq = sum(v for k, v in s.extra.items() if isinstance(k, tuple) and k[0] == 'n' and isinstance(k[1], str) and
+                  k[1].startswith('libobj:threading.') and k[1].endswith('.acquire'))
+        rel = sum(v for k, v in s.extra.items() if isinstance(k, tuple) and k[0] == 'n' and isinstance(k[1], str) and
+                  k[1].startswith('libobj:threading.') and k[1].endswith('.release'))
+        if acq != rel:
+            bad.append('a lock of the recorder was acquired %d time(s) and released %d time(s): the next scope (on another thread) blocks for ever' % (acq, rel))
         if tl:
             tlv = [v for k, v in s.env.items() if k[0] == 'F' and k[2] == 'currently_in_interception']
             for v in tlv:
@@ -194,4 +201,43 @@ def run(ctx):
                     res.add(Finding('C09', 'C09.e', 'R-WHOCALLS', f.file, f.qualname, n.lineno, norm(n)[:120],
                                     '%s in %s: this is recorder state outside the per-run fields that are reset when a run ends, so a later run '
                                     '(recording or replay) can depend on an earlier one' % (w, f.qualname)))
+    # ---- C09.g what a user callback returned belongs to the user: the recorder does not write into it (a callback that hands out the same
+    # object every time would carry one run's data into the next)
+    cg9 = res.clause('C09.g', 'R-PROV', 'objects returned by user callbacks are never modified by the recorder', floor=1)
+    MUT = {'update', 'append', 'extend', 'insert', 'pop', 'popitem', 'remove', 'clear', 'setdefault', 'sort', 'reverse', 'add', 'discard', '__setitem__'}
+    nfun = 0
+    for fn_ in [f for f in ctx.repo.all_functions() if f.module is roles.cls.module]:
+        prm = set(fn_.all_param_names)
+        called = {n.func.id for n in walk_own(fn_.node) if isinstance(n, ast.Call) and isinstance(n.func, ast.Name) and n.func.id in prm}
+        if not called:
+            continue
+        nfun += 1
+        owned = {}
+        grew = True
+        while grew:
+            grew = False
+            for n in walk_own(fn_.node):
+                if isinstance(n, ast.Assign) and len(n.targets) == 1 and isinstance(n.targets[0], ast.Name) and n.targets[0].id not in owned:
+                    v = n.value
+                    if (isinstance(v, ast.Call) and isinstance(v.func, ast.Name) and v.func.id in called) or (isinstance(v, ast.Name) and v.id in owned):
+                        owned[n.targets[0].id] = norm(v)
+                        grew = True
+        bad = []
+        for n in walk_own(fn_.node):
+            if isinstance(n, ast.Call) and isinstance(n.func, ast.Attribute) and n.func.attr in MUT and isinstance(n.func.value, ast.Name) and n.func.value.id in owned:
+                bad.append(n)
+            if isinstance(n, (ast.Assign, ast.AugAssign, ast.Delete)):
+                tg = n.targets if isinstance(n, (ast.Assign, ast.Delete)) else [n.target]
+                for t_ in tg:
+                    if isinstance(t_, ast.Subscript) and isinstance(t_.value, ast.Name) and t_.value.id in owned:
+                        bad.append(n)
+                    if isinstance(n, ast.AugAssign) and isinstance(t_, ast.Name) and t_.id in owned:
+                        bad.append(n)
+        cg9.instance('%s: results of %s are only read' % (fn_.qualname, sorted(called)), fn_.qualname, not bad)
+        cg9.evaluations += 1
+        for n in bad[:1]:
+            res.add(Finding('C09', 'C09.g', 'R-PROV', fn_.file, fn_.qualname, n.lineno, norm(n)[:100],
+                            'the recorder writes into an object a user callback returned (`%s`): a callback that returns the same object on every call '
+                            '(a shared tags dict) accumulates what earlier runs put there, so a later run - e.g. one cut short before a key is '
+                            'rewritten - is saved with a previous run\'s data' % norm(n)[:80]))
     return res
